@@ -117,10 +117,8 @@ func runC12(points []c12Point, kind string, idx int) Case {
 		}
 		coq = append(coq, fmt.Sprintf("IP %d %d %d %d %d %s %d %s %d",
 			p.mode, p.fuid, p.fgid, p.euid, p.egid, aux, p.access, CBool(p.ro), obs))
-		if i < 12 {
-			txt = append(txt, fmt.Sprintf("mode=%#o own=%d:%d eff=%d:%d aux=%v none=%v mask=%#x ro=%v -> %#x",
-				p.mode, p.fuid, p.fgid, p.euid, p.egid, p.aux, p.authNone, p.access, p.ro, obs))
-		}
+		txt = append(txt, fmt.Sprintf("[%d] mode=%#o own=%d:%d eff=%d:%d aux=%v authnone=%v mask=%#x ro=%v -> granted %#x",
+			i, p.mode, p.fuid, p.fgid, p.euid, p.egid, p.aux, p.authNone, p.access, p.ro, obs))
 		tags["class_"+c12ClassNames[classOfPoint(p)]]++
 		if p.mode&uint32(os.ModeDir) != 0 {
 			tags["dir"]++
@@ -152,7 +150,7 @@ func runC12(points []c12Point, kind string, idx int) Case {
 			tags["granted_partial"]++
 		}
 	}
-	text := fmt.Sprintf("%d ACCESS points; first: %s", len(points), strings.Join(txt, " | "))
+	text := fmt.Sprintf("%d ACCESS points (step = point index)\n%s", len(points), strings.Join(txt, "\n"))
 	return Case{Index: idx, Kind: kind, Coq: CList(coq), Tags: tags, Text: text}
 }
 
